@@ -6,7 +6,7 @@ CONSTANTS
   Pos = {p0, p1, p2, p3, p4}
   NumTokens = 2
   HbTimeout = 2
-  MaxClock = 5
+  MaxClock = 4
   Cfg0 <- Cfg0Live
   Cfgs <- AllCfgs
   Bud0 <- BudLiveC
